@@ -339,6 +339,221 @@ func runC20(t *testing.T, x c20Scn, verbose bool) vfCase {
 	return c
 }
 
+// ---- lock pressure: tight loops of lock-taking API calls against busy send paths ----
+//
+// The first sub-check spreads a few calls over virtual time; windows of a few hundred
+// nanoseconds (a lock taken twice on one path, a lock-order inversion between the
+// association lock and a stream lock) are practically never hit that way. Here generated
+// sets of goroutines hammer lock-taking methods of the same streams in tight loops (no
+// sleeps, so no virtual time passes) while writers push bursts through the send path with
+// generated reliability settings (including "abandon at once") and faults.
+
+type c20PStream struct {
+	Unord bool `json:"unord"`
+	RelT  int  `json:"relt"`
+	RelV  int  `json:"relv"`
+}
+
+type c20Hammer struct {
+	Side  int      `json:"side"`
+	St    int      `json:"st"`
+	N     int      `json:"n"`
+	Kinds []string `json:"kinds"`
+}
+
+type c20PWriter struct {
+	Side int `json:"side"`
+	St   int `json:"st"`
+	N    int `json:"n"`
+	Size int `json:"size"`
+}
+
+type c20Press struct {
+	Cfg     [2]vfSideCfg `json:"cfg"`
+	Streams []c20PStream `json:"streams"`
+	Writers []c20PWriter `json:"writers"`
+	Hammers []c20Hammer  `json:"hammers"`
+	Pos     [2][]vfFD    `json:"pos"`
+}
+
+var c20HammerKinds = []string{"setrel", "thresh", "onlow", "buffered", "state", "wdl", "rdl", "abuffered", "getters", "maxmsg", "smallwrite"}
+
+func genC20Press(rt *rapid.T) c20Press {
+	var x c20Press
+	o := vfGenOpts{minRBuf: 200000}
+	x.Cfg[0] = genSideCfg(rt, "a", o)
+	x.Cfg[1] = genSideCfg(rt, "b", o)
+	x.Cfg[0].RTOMax, x.Cfg[1].RTOMax = 2000, 2000
+	ns := rapid.IntRange(1, 3).Draw(rt, "nstreams")
+	for i := 0; i < ns; i++ {
+		x.Streams = append(x.Streams, c20PStream{Unord: rapid.Bool().Draw(rt, "unord"), RelT: rapid.IntRange(0, 2).Draw(rt, "relt"), RelV: rapid.SampledFrom([]int{0, 0, 1, 3}).Draw(rt, "relv")})
+	}
+	nw := rapid.IntRange(1, 3).Draw(rt, "nwriters")
+	for i := 0; i < nw; i++ {
+		x.Writers = append(x.Writers, c20PWriter{Side: rapid.IntRange(0, 1).Draw(rt, "wside"), St: rapid.IntRange(0, ns-1).Draw(rt, "wst"),
+			N: rapid.IntRange(20, 150).Draw(rt, "wn"), Size: rapid.SampledFrom([]int{8, 100, 1200}).Draw(rt, "wsize")})
+	}
+	nh := rapid.IntRange(1, 5).Draw(rt, "nhammers")
+	for i := 0; i < nh; i++ {
+		h := c20Hammer{Side: rapid.IntRange(0, 1).Draw(rt, "hside"), St: rapid.IntRange(0, ns-1).Draw(rt, "hst"), N: rapid.IntRange(100, 1500).Draw(rt, "hn")}
+		h.Kinds = rapid.SliceOfNDistinct(rapid.SampledFrom(c20HammerKinds), 1, 3, rapid.ID[string]).Draw(rt, "hkinds")
+		x.Hammers = append(x.Hammers, h)
+	}
+	if rapid.Bool().Draw(rt, "faults") {
+		x.Pos[0] = genPosFaults(rt, "fa", 40, 4, 20)
+		x.Pos[1] = genPosFaults(rt, "fb", 40, 4, 20)
+	}
+	return x
+}
+
+func runC20Press(t *testing.T, x c20Press, verbose bool) vfCase {
+	var c vfCase
+	var sc vfE1
+	sc.Cfg = x.Cfg
+	sc.Faults.Pos = x.Pos
+	var failMu sync.Mutex
+	fail := func(sig, f string, a ...any) {
+		failMu.Lock()
+		c.fail(sig, f, a...)
+		failMu.Unlock()
+	}
+	kinds := map[string]bool{}
+	sameStream := false
+	out := vfRunE1(t, &sc, vfE1Opts{verbose: verbose, bound: func(*vfSim) time.Duration { return time.Millisecond },
+		eval: func(s *vfSim, out *vfE1Out) {
+			// streams are opened and configured up front by the orchestrator
+			var hs [2][]*Stream
+			for side := 0; side < 2; side++ {
+				for i, ps := range x.Streams {
+					h, err := s.stream(side, uint16(2*i+side), PayloadTypeWebRTCBinary)
+					if err != nil {
+						fail("open-failed", "OpenStream: %v", err)
+						return
+					}
+					h.s.SetReliabilityParams(ps.Unord, byte(ps.RelT), uint32(ps.RelV))
+					hs[side] = append(hs[side], h.s)
+				}
+			}
+			var wg sync.WaitGroup
+			done := false
+			for _, w := range x.Writers {
+				w := w
+				wg.Add(1)
+				go func() {
+					defer wg.Done()
+					st := hs[w.Side][w.St]
+					b := vfPayload(4242, w.Size)
+					for i := 0; i < w.N; i++ {
+						if _, err := st.WriteSCTP(b, PayloadTypeWebRTCBinary); err != nil {
+							fail("write-error", "write failed: %v", err)
+							return
+						}
+					}
+				}()
+			}
+			for _, h := range x.Hammers {
+				h := h
+				for _, w := range x.Writers {
+					if w.Side == h.Side && w.St == h.St {
+						sameStream = true
+					}
+				}
+				for _, k := range h.Kinds {
+					kinds[k] = true
+				}
+				wg.Add(1)
+				go func() {
+					defer wg.Done()
+					a := s.as[h.Side]
+					st := hs[h.Side][h.St]
+					ps := x.Streams[h.St]
+					for i := 0; i < h.N; i++ {
+						switch h.Kinds[i%len(h.Kinds)] {
+						case "setrel":
+							st.SetReliabilityParams(ps.Unord, byte(ps.RelT), uint32(ps.RelV))
+						case "thresh":
+							st.SetBufferedAmountLowThreshold(uint64(i % 5000))
+						case "onlow":
+							st.OnBufferedAmountLow(func() { _ = st.BufferedAmount() })
+						case "buffered":
+							if v := st.BufferedAmount(); v > 1<<40 {
+								fail("buffered-amount-underflow", "BufferedAmount()=%d", v)
+								return
+							}
+							_ = st.BufferedAmountLowThreshold()
+						case "state":
+							_ = st.State()
+							_ = st.StreamIdentifier()
+							_ = st.StreamIdentifier()
+						case "wdl":
+							_ = st.SetWriteDeadline(time.Time{})
+						case "rdl":
+							_ = st.SetReadDeadline(time.Time{})
+						case "abuffered":
+							_ = a.BufferedAmount()
+						case "getters":
+							_ = a.SRTT()
+							_ = a.CWND()
+							_ = a.RWND()
+							_, _ = a.Metadata()
+							_ = a.BytesSent()
+						case "maxmsg":
+							a.SetMaxMessageSize(65536)
+							_ = a.MaxMessageSize()
+						case "smallwrite":
+							if i%16 == 0 {
+								_, _ = st.WriteSCTP(vfPayload(77, 8), PayloadTypeWebRTCBinary)
+							}
+						}
+					}
+				}()
+			}
+			go func() { wg.Wait(); s.mu.Lock(); done = true; s.mu.Unlock() }()
+			isDone := func() bool { s.mu.Lock(); defer s.mu.Unlock(); return done }
+			s.o.run(isDone, time.Now().Add(60*time.Second))
+			if !isDone() {
+				fail("api-call-stuck", "API goroutines did not finish within 60 virtual seconds")
+				return
+			}
+			// the association must still work: everything buffered drains (or is abandoned)
+			drained := func() bool { return s.as[0].BufferedAmount() == 0 && s.as[1].BufferedAmount() == 0 }
+			if !s.waitHealed(drained, vfDrainBound(&sc)+120*time.Second) {
+				fail("not-drained", "after the concurrent phase the senders still report %d / %d buffered bytes", s.as[0].BufferedAmount(), s.as[1].BufferedAmount())
+			}
+		}})
+	if out.Panic != "" && c.Verdict == "" {
+		if strings.Contains(out.Panic, "blocked goroutines remain") || strings.Contains(out.Panic, "deadlock") {
+			c.fail("goroutines-remain", "after teardown: %s", out.Panic)
+		} else {
+			c.fail("bubble-panic", "bubble: %s", out.Panic)
+		}
+	}
+	if !out.HSOK && c.Verdict == "" {
+		c.Skip = true
+	}
+	pr := false
+	for _, ps := range x.Streams {
+		if ps.RelT != 0 {
+			pr = true
+		}
+	}
+	if pr {
+		c.class("partial-reliability")
+	}
+	if sameStream {
+		c.class("hammer-on-written-stream")
+	}
+	c.Nontrivial = sameStream && len(kinds) >= 2
+	if (c.Verdict != "" || verbose) && out.sim != nil {
+		c.Detail = out.sim.history(100)
+	}
+	return c
+}
+
 func TestVF_C20(t *testing.T) {
 	vfExplore(t, "C20", "concurrent-api", vfN(480, 12000), genC20, func(x c20Scn) vfCase { return runC20(t, x, vfEnv.Replay != "") })
+	// a deadlocked case never returns; each case finishes in well under a second of real time
+	vfWatchdogLimit.Store(int64(60 * time.Second))
+	vfExplore(t, "C20", "lock-pressure", vfN(60, 2000), genC20Press, func(x c20Press) vfCase { return runC20Press(t, x, vfEnv.Replay != "") })
+	vfWatchdogLimit.Store(0)
 }
